@@ -33,7 +33,7 @@ RULE = ("types: every constructor spine over {Vec, HashSet, Option, Result, Hash
         "1-tuple} to depth 2 (quick) / 3 (thorough) ending in each leaf {string, number, boolean, void, (), struct, enum-like name, mapped name}, "
         "plus random types to depth 6, each rendered by the five renderers and placed at a struct field, a parameter, parameter+channel, "
         "channel only (optionally with an enum and a member-less struct) through both real generators; malformed: 400 / 5000 TypeStructure values and mappings outside the feature set "
-        "(unknown primitives, non-identifier names, non-primitive mapping targets, any key type) where only model = implementation for the five renderers is compared; 350 cases with several parameters per command and several commands whose types render alike in one renderer only (Vec/HashSet, T/Result<T>), 300 cases with mapping targets beyond the primitives (unknown, any, number[], Date, Record, tuple, union) at field/parameter/channel position; 15 % of the type cases use serialised names that need quoting as keys and odd enum literals; projects: random graph projects (tools/projgen.py, incl. tuples of generics, renamed fields, raw identifiers) generated by the "
+        "(unknown primitives, non-identifier names, non-primitive mapping targets, any key type) where only model = implementation for the five renderers is compared; 350 cases with several parameters per command and several commands whose types render alike in one renderer only (Vec/HashSet, T/Result<T>), 300 cases with mapping targets beyond the primitives (unknown, any, number[], Date, Record, tuple, union) at field/parameter/channel position; 15 % of the type cases use serialised names that need quoting as keys and odd enum literals; projects: random graph projects (tools/projgen.py, incl. tuples of generics, renamed fields, raw identifiers), event projects (several emit sites per event name with different payload types, nested payload dependencies, several files), type_mappings whose keys are external names or project-defined types, and an oracle-only stream crossing defaultParameterCase / defaultFieldCase / includePrivate / typeMappings with both modes, generated by the "
         "real CLI in both modes. Non-trivial = the type has at least one constructor / the project emits at least one struct; "
         "distinct = distinct cases")
 TRUSTED = [
@@ -523,9 +523,68 @@ def gen_alike_project(rng):
     return {"files": files, "config": {}}
 
 
+def gen_event_project(rng):
+    """events: several emit sites per event name with different payload types (typed locals, so the payload
+    types are reachable only through the emit sites), payload types with nested dependencies (struct fields,
+    Vec / Option / map of further project types, an enum), emit sites spread over several files"""
+    P = projgen.P
+    deps = ["Detail", "Tag", "Origin", "Phase"]
+    pay = ["JobStarted", "JobStep", "JobFinished", "Progress", "Failure"]
+    files = {"src/lib.rs": [], "src/jobs.rs": [], "src/sub/notify.rs": []}
+    def put(it):
+        rng.choice(list(files.values())).append(it)
+    put({"kind": "enum", "name": "Phase", "derives": ["Serialize", "Deserialize"], "serde": [],
+         "variants": [{"name": v, "serde": []} for v in ["Queued", "Running", "Done"]]})
+    for d in deps[:3]:
+        put({"kind": "struct", "name": d, "derives": ["Serialize", "Deserialize"], "serde": [],
+             "fields": [{"name": "id", "ty": P("u32"), "serde": [], "validate": []},
+                        {"name": "label", "ty": P("String"), "serde": [], "validate": []}]})
+    used_pay = rng.sample(pay, rng.randint(3, 5))
+    for n in used_pay:
+        fs = [{"name": "id", "ty": P("u32"), "serde": [], "validate": []}]
+        for d in rng.sample(deps, rng.randint(0, 2)):
+            ctx = rng.choice(["direct", "vec", "map_value", "tuple_last", "vec_tuple"])
+            fs.append({"name": d.lower() + "_of", "ty": projgen.CONTEXTS[ctx](P(d)), "serde": [], "validate": []})
+        put({"kind": "struct", "name": n, "derives": ["Serialize", "Deserialize"], "serde": [], "fields": fs})
+    evs = ["job-status", "progress"]
+    fns = rng.sample(FN_NAMES, rng.randint(2, 4))
+    for fn in fns:
+        body = []
+        for k in range(rng.randint(1, 3)):
+            t = rng.choice(used_pay)
+            ty = rng.choice([P(t), P(t), P("Vec", P(t)), P("Option", P(t))]) if rng.random() < 0.8 else P("u64")
+            body.append("let v%d: %s = todo!();" % (k, projgen.rust_type(ty)))
+            body.append({"emit": rng.choice(evs), "recv": "app", "payload": "v%d" % k})
+        put({"kind": "fn", "name": fn, "attrs": [["tauri", "command"]], "async": False, "vis": "pub",
+             "params": [{"name": "app", "ty": P("AppHandle", segs=["tauri"])}, {"name": "id", "ty": P("u32")}],
+             "ret": None, "body": body})
+    return {"files": {k: v for k, v in files.items() if v}, "config": {}}
+
+
+def add_mappings(case, rng):
+    """type_mappings at project level: external names used by fields, and keys that coincide with types the
+    project defines (structs and enums, reachable or not)"""
+    items = [it for its in case["files"].values() for it in its]
+    structs = [it for it in items if it["kind"] == "struct" and it.get("fields")]
+    defined = [it["name"] for it in items if it["kind"] in ("struct", "enum")]
+    m = {}
+    for ext, tgt in rng.sample([("DateTime", "string"), ("Uuid", "string"), ("Decimal", "number"), ("Flag", "boolean")], rng.randint(1, 2)):
+        m[ext] = tgt
+        if structs:
+            rng.choice(structs)["fields"].append({"name": ext.lower() + "_at", "ty": projgen.P(ext), "serde": [], "validate": []})
+    for n in rng.sample(defined, min(len(defined), rng.randint(1, 2))):
+        m[n] = rng.choice(["string", "number"])
+    case.setdefault("config", {})["typeMappings"] = m
+
+
 def project_cases(tier, rng):
     n = 120 if tier == "quick" else 1500
     cases = []
+    for i in range(n // 4):
+        c = gen_event_project(rng)
+        if rng.random() < 0.3:
+            add_mappings(c, rng)
+        cases.append({"id": "events-%d" % i, "project": c, "clean": False})
     for i in range(n // 3):
         cases.append({"id": "alike-%d" % i, "project": gen_alike_project(rng), "clean": False})
     for i in range(n):
@@ -552,6 +611,8 @@ def project_cases(tier, rng):
         if rng.random() < 0.3:
             add_memberless(case, rng)
         strip_clean(case, rng, clean)
+        if rng.random() < 0.3:
+            add_mappings(case, rng)
         if clean:
             for its in case["files"].values():
                 for it in its:
@@ -613,6 +674,73 @@ def eval_projects(cases):
     return outs
 
 
+# ----------------------------------------------------------------------------- configuration knobs (oracle only)
+
+CASES_CFG = ["camelCase", "snake_case", "PascalCase", "SCREAMING_SNAKE_CASE", "kebab-case", "lowercase", "UPPERCASE", "SCREAMING-KEBAB-CASE"]
+
+
+def knob_cases(tier, rng):
+    """every configuration knob crossed with both modes on projects outside every recorded class: the model is
+    not fed the naming conventions, so only the oracle (names, keys, per-key shapes of the two generated
+    modules against each other) judges these; any finding is a violation"""
+    n = 60 if tier == "quick" else 600
+    out = []
+    for i in range(n):
+        if i % 3 == 0:
+            case = gen_event_project(rng)
+        else:
+            case, _ = projgen.gen_graph_project(rng, ntypes=rng.randint(2, 5), nfiles=rng.randint(1, 3), ncmds=rng.randint(1, 3),
+                                                contexts=CLEAN_CONTEXTS, enums=True, decoys=True, events=False, channel=rng.random() < 0.5)
+        for its in case["files"].values():
+            for it in its:
+                if it["kind"] == "struct":
+                    for f in it.get("fields", []):
+                        f["ty"] = scrub(f["ty"])
+                        if rng.random() < 0.15:
+                            f["vis"] = ""                     # private field: includePrivate decides
+                if it["kind"] == "fn":
+                    for p in it.get("params", []):
+                        p["ty"] = scrub(p["ty"])
+                    if it.get("ret") is not None:
+                        it["ret"] = scrub(it["ret"])
+        cfg = {}
+        if rng.random() < 0.7:
+            cfg["defaultParameterCase"] = rng.choice(CASES_CFG)
+        if rng.random() < 0.7:
+            cfg["defaultFieldCase"] = rng.choice(CASES_CFG)
+        if rng.random() < 0.5:
+            cfg["includePrivate"] = rng.random() < 0.5
+        case["config"] = cfg
+        if rng.random() < 0.4:
+            add_mappings(case, rng)
+        out.append({"id": "knob-%d" % i, "project": case})
+    return out
+
+
+def eval_knobs(cases):
+    runs = vlib.pmap(run_project, cases)
+    sexps, idx, outs_pre = [], [], {}
+    for c, (rn, rz) in zip(cases, runs):
+        if rn["status"] != 0 or rz["status"] != 0 or "types.ts" not in rn["files"] or "types.ts" not in rz["files"]:
+            outs_pre[c["id"]] = Outcome({"project": c["project"], "knobs": True}, False, False,
+                                        detail={"impl": "generation failed", "none": rn["log"][-800:], "zod": rz["log"][-800:]})
+            continue
+        sexps.append(sx([rn["files"]["types.ts"], rz["files"]["types.ts"]]))
+        idx.append(c["id"])
+    res = dict(zip(idx, vlib.run_runner("c10-compare", sexps)))
+    outs = []
+    for c, (rn, rz) in zip(cases, runs):
+        if c["id"] in outs_pre:
+            outs.append(outs_pre[c["id"]])
+            continue
+        vt, vdet, vkeys = res[c["id"]]
+        det = {"tags": list(vt), "per_item": vdet, "per_key": vkeys, "config": c["project"].get("config")}
+        if vt:
+            det["impl"] = {"plain_mod": rn["files"]["types.ts"], "zod_mod": rz["files"]["types.ts"]}
+        outs.append(Outcome({"project": c["project"], "knobs": True}, True, not vt, None, det, nontrivial=True))
+    return outs
+
+
 # ----------------------------------------------------------------------------- entry points
 
 def build():
@@ -650,6 +778,8 @@ def run(rep):
         pc = project_cases(rep.tier, rng)
         pouts = eval_projects(pc)
         rep.add("projects", pouts)
+        kouts = eval_knobs(knob_cases(rep.tier, rng))
+        rep.add("knobs", kouts)
         depth = {}
         for c in tc:
             d = type_depth(c["ts"])
@@ -661,6 +791,8 @@ def run(rep):
             "with_enum": sum(1 for c in tc if c["enum"]), "with_memberless_struct": sum(1 for c in tc if c.get("unit")), "with_mappings": sum(1 for c in tc if c["mappings"]),
             "flag_structure_mismatch": sum(1 for c in tc if c["opt"] != (c["ts"][0] == "opt")),
             "malformed_cases": len(mouts), "malformed_outside_domain": sum(1 for o in mouts if o.detail.get("in_domain") != "true"),
+            "knob_projects": len(kouts), "event_projects": sum(1 for c in pc if str(c["id"]).startswith("events")),
+            "projects_with_mappings": sum(1 for c in pc if (c["project"].get("config") or {}).get("typeMappings")),
             "projects": len(pc), "projects_outside_every_class": sum(1 for o in pouts if o.ok),
             "projects_inside_a_class": sum(1 for o in pouts if o.kf),
         }
@@ -675,7 +807,9 @@ def replay(rep, payload):
         for i, it in enumerate(items):
             c = dict(it["case"])
             c["id"] = "replay-%d" % i
-            if "project" in c:
+            if "project" in c and c.get("knobs"):
+                rep.add("knobs", eval_knobs([c]))
+            elif "project" in c:
                 rep.add("projects", eval_projects([c]))
             elif c.get("malformed"):
                 rep.add("malformed", eval_malformed([c]))
